@@ -78,7 +78,7 @@ pub fn decode_c11_history(data: &[u8]) -> c11::HistorySpec {
     };
     let stride = [2u16, 3, 7][b.below(3) as usize];
     let mut ops = vec![];
-    while b.left() > 0 && ops.len() < 80 {
+    while b.left() > 0 && ops.len() < 40 {
         let p = |b: &mut Bytes| b.below(DOM as u32) as i64;
         let iv = |b: &mut Bytes, wmax: u32| {
             let a = b.below(DOM as u32) as i64;
